@@ -43,7 +43,9 @@ def gen_ir(rng):
             doc = "[FK(users.id)] " + doc
         p = {"typ": t, "doc": doc}
         if not t.startswith("Optional[") and t in ("int", "float", "str", "bool") and rng.random() < 0.4:
-            p["default"] = {"int": 5, "float": 0.5, "str": "x", "bool": True}[t]
+            p["default"] = {"int": rng.choice([5, 0]), "float": rng.choice([0.5, -0.5]), "str": rng.choice(["x", ""]), "bool": rng.choice([True, False])}[t]
+        elif t.startswith("Optional[") and rng.random() < 0.4:
+            p["default"] = T.NoneStr        # `x: Optional[str] = None`
         params[nm] = p
     return {"name": "Thing", "doc": rng.choice(["Thing table.", "Summary.\n\nMore about the table."]), "params": params, "returns": None}
 
@@ -121,7 +123,9 @@ def check_case(ir):
                         extra = [x for x in det["out"] if x not in det["in"]]
                         if extra == ["id"]:
                             continue        # the forced / inferred surrogate key is the documented normalisation
-                    items.append(("C05/roundtrip/%s" % cls, dict(det, config=tag)))
+                    # a column called `id` is taken for the surrogate key and re-typed: its own family of classes
+                    idc = "/id-column" if det.get("param") == "id" else ""
+                    items.append(("C05/roundtrip/%s%s" % (cls, idc), dict(det, config=tag)))
                 # Enum members keep their order (the generic comparison treats Literal members as a set)
                 for k, p_in in strip_pk(ir)["params"].items():
                     p_out = (strip_pk(out).get("params") or {}).get(k)
